@@ -63,65 +63,89 @@ def run_neutral(pid, mod):
       shutil.rmtree(fdir, ignore_errors=True)
 
 
-def run_pack(pid, mod):
+def _apply(scratch, m):
+  if 'patch' in m:
+    pf = m['patch'] if os.path.isabs(m['patch']) else os.path.join(SEEDED, m['patch'])
+    r = subprocess.run(['patch', '-p1', '--forward', '--silent', '-i', pf], cwd=scratch, capture_output=True, text=True)
+    if r.returncode != 0:
+      # leave no half-applied hunks behind
+      subprocess.run(['patch', '-p1', '-R', '--silent', '--force', '-i', pf], cwd=scratch, capture_output=True, text=True)
+      for root, _, files in os.walk(scratch):
+        for f in files:
+          if f.endswith('.rej') or f.endswith('.orig'):
+            os.unlink(os.path.join(root, f))
+    return r.returncode == 0
+  p = os.path.join(scratch, m['file'])
+  try:
+    s = open(p).read()
+  except OSError:
+    return False
+  if s.count(m['old']) == 1:
+    open(p, 'w').write(s.replace(m['old'], m['new']))
+    return True
+  return False
+
+
+def _evaluate(pid, mod, muts, res):
+  """apply `muts` together to a fresh scratch copy; returns (fired, missed, unapplied, compiled)"""
   from .core import Ctx
-  muts = list(getattr(mod, 'MUTANTS', []))
-  res = {'seeded': len(muts), 'fired': [], 'missed': [], 'not_applicable_patch': [], 'scratch_extraction_s': None}
-  if not muts:
-    return res
   base = tempfile.mkdtemp(prefix='ordverif.', dir='/var/tmp')
   scratch = os.path.join(base, 'repo')
   fdir = None
   try:
     _copy_repo(scratch)
-    applied = []
+    applied, unapplied = [], []
     for m in muts:
-      ok = False
-      if 'patch' in m:
-        pf = m['patch'] if os.path.isabs(m['patch']) else os.path.join(SEEDED, m['patch'])
-        r = subprocess.run(['patch', '-p1', '--forward', '--silent', '-i', pf], cwd=scratch, capture_output=True, text=True)
-        ok = r.returncode == 0
-      else:
-        p = os.path.join(scratch, m['file'])
-        try:
-          s = open(p).read()
-        except OSError:
-          s = None
-        if s is not None and s.count(m['old']) == 1:
-          open(p, 'w').write(s.replace(m['old'], m['new']))
-          ok = True
-      if ok:
-        applied.append(m)
-      else:
-        res['not_applicable_patch'].append(m['name'])
+      (applied if _apply(scratch, m) else unapplied).append(m)
     if not applied:
-      return res
+      return [], [], unapplied, True
     try:
       fdir, digest, _, dt = extract.ensure_facts('dev', repo=scratch, quiet=True)
     except SystemExit:
-      # the combination does not compile: nothing can be said
-      res['not_applicable_patch'] += [m['name'] + ' (scratch copy does not compile)' for m in applied]
-      return res
-    res['scratch_extraction_s'] = round(dt, 1)
+      return [], applied, unapplied, False
+    res['scratch_extraction_s'] = round((res.get('scratch_extraction_s') or 0) + dt, 1)
     ctx = Ctx(pid, 'quick', Facts(fdir))
     mod.run(ctx)
+    fired, missed = [], []
     for m in applied:
       rule, fn_sub, inst_sub = m['expect']
       hit = [v for v in ctx.violations if v.rule == rule and fn_sub in (v.fn or '') and inst_sub in (v.desc or '')]
       if hit:
-        res['fired'].append({'mutant': m['name'], 'reported_as': hit[0].key})
+        fired.append({'mutant': m['name'], 'reported_as': hit[0].key})
       else:
-        res['missed'].append({'mutant': m['name'], 'expect': list(m['expect'])})
-    return res
+        missed.append(m)
+    return fired, missed, unapplied, True
   finally:
     shutil.rmtree(base, ignore_errors=True)
     if fdir and os.path.isdir(fdir) and fdir != extract.facts_dir('dev'):
       shutil.rmtree(fdir, ignore_errors=True)
-    # the scratch path left its own member fingerprints / incremental data in the shared target dir
-    tgt = os.path.join(extract.WORK, 'target', 'debug')
-    for sub in ('incremental',):
-      d = os.path.join(tgt, sub)
-      if os.path.isdir(d):
-        for x in os.listdir(d):
-          if x.startswith('ord-') or x.startswith('ordinals-'):
-            pass
+
+
+def run_pack(pid, mod):
+  """all edits together first (one extraction); whatever did not apply on top of the others, did not compile in combination, or
+  was not reported (one report can mask another, e.g. a lost anchor ends a rule early) is then evaluated alone"""
+  muts = list(getattr(mod, 'MUTANTS', []))
+  res = {'seeded': len(muts), 'fired': [], 'missed': [], 'not_applicable_patch': [], 'scratch_extraction_s': None, 'evaluated_alone': []}
+  if not muts:
+    return res
+  fired, missed, unapplied, compiled = _evaluate(pid, mod, muts, res)
+  res['fired'] += fired
+  alone = missed + unapplied
+  if len(muts) == 1:
+    alone = []
+    if not compiled:
+      res['not_applicable_patch'] += [m['name'] + ' (scratch copy does not compile)' for m in missed]
+    else:
+      res['missed'] += [{'mutant': m['name'], 'expect': list(m['expect'])} for m in missed]
+      res['not_applicable_patch'] += [m['name'] for m in unapplied]
+  for m in alone:
+    res['evaluated_alone'].append(m['name'])
+    f1, m1, u1, c1 = _evaluate(pid, mod, [m], res)
+    res['fired'] += f1
+    if u1:
+      res['not_applicable_patch'].append(m['name'])
+    elif not c1:
+      res['not_applicable_patch'].append(m['name'] + ' (scratch copy does not compile)')
+    elif m1:
+      res['missed'].append({'mutant': m['name'], 'expect': list(m['expect'])})
+  return res
